@@ -18,19 +18,19 @@ SAMPLING = "sampling, not enumeration; the reference model covers the value/oper
 
 CHECKS = {
  "C01": ("exploration", "9.1",
-   "seeded histories of driver calls (CRUD, bulk, upsert, find-one-and-modify, index and drop calls, sleeps, clean restarts on the simulated disk) executed against the instrumented current tree with the expiry goroutine alive; every call's result and the full contents/index definitions of every collection are compared with an independent sequential reference model after every call and after every restart",
+   "seeded histories of driver calls (CRUD, bulk, upsert, find-one-and-modify, index and drop calls, sleeps, clean restarts on the simulated disk) executed against the instrumented current tree with the expiry goroutine alive; every call's result and the full contents/index definitions of every collection are compared with an independent sequential reference model after every call and after every restart; 5 % of the calls repeat the previous call verbatim, a tenth of the runs seed a collection of 13-40 documents with ties under every sort key, decoded results are copied and then scribbled over in place",
    SAMPLING + "fault-free configuration (one client), so the schedule dimension is the client vs. the engine's expiry goroutine only",
    "deterministic simulation: seeded call histories vs. executable reference model, checked call by call"),
  "C02": ("exploration", "9.2",
-   "histories biased towards writes that fail part-way (k-th matched document, k-th batch item, index builds over conflicting data, injected store failures before/after persisting); after a failing single-item call the byte dump of every namespace incl. change log and index contents must equal the dump before; batches must equal the model's 'exactly the successful items' and grow the change log by exactly that many events; 15 % of the update calls use operators outside the model's domain ($push modifiers, $pullAll, $bit, positional operators with array filters, numeric index paths) and are judged by the before/after dump alone",
+   "histories biased towards writes that fail part-way (k-th matched document, k-th batch item, index builds over conflicting data, injected store failures before/after persisting); after a failing single-item call the byte dump of every namespace incl. change log and index contents must equal the dump before; batches must equal the model's 'exactly the successful items' and grow the change log by exactly that many events; 15 % of the update calls use operators outside the model's domain ($push modifiers, $pullAll, $bit, positional operators with array filters, numeric index paths) and are judged by the before/after dump alone; session transactions whose bodies contain failing calls (also failing upserts into collections that do not exist yet) and then commit or abort, scripted engine-level transactions (Begin, Transaction.* steps, Commit) in which the transaction's catalog must be byte-identical after every failing step, and 30 % of the runs with second-scale retention ages and idle periods (a failing call may not trim the change log either)",
    SAMPLING + "store faults are injected at the Store seam",
    "deterministic simulation: generated failing writes + store fault injection, before/after byte dumps and reference model"),
  "C03": ("exploration", "9.3",
-   "2-4 client tasks running single calls, session transactions (commit / abort / end / failing store) and structural churn (index builds and drops, collection drops, documents with embedded documents and arrays of documents updated through array positions) under the seeded scheduler (18 % of the runs with statement-level scheduling points in the engine / session / stream / transaction code), plus a snapshot task that takes Engine.Catalog() pointers, read-only transactions and un-iterated cursors at seeded moments; oracles: the commit-order replay of C04 (an aborted or failed transaction leaves no trace, a committed one appears at once) and byte dumps of every snapshot and of every committed catalog, which must stay identical through the old handle whatever commits later; cursors must return the documents of one committed state of their creation window",
+   "2-4 client tasks running single calls, session transactions (commit / abort / end / failing store) and structural churn (index builds and drops, collection drops, documents with embedded documents and arrays of documents updated through array positions) under the seeded scheduler (18 % of the runs with statement-level scheduling points in the engine / session / stream / transaction code), plus a snapshot task that takes Engine.Catalog() pointers, read-only transactions and un-iterated cursors at seeded moments; oracles: the commit-order replay of C04 (an aborted or failed transaction leaves no trace, a committed one appears at once) and byte dumps of every snapshot and of every committed catalog, which must stay identical through the old handle whatever commits later; cursors must return the documents of one committed state of their creation window; readers also sort, project (nested exclusions) and collect distinct values; a fifth of the runs let all tasks advance one cursor (successful Next calls = size of its snapshot); cursors opened in the middle of a transaction body are read at its end; a transaction that acknowledged its commit must have made one",
    SAMPLING + "snapshots are re-dumped at seeded recheck points and at the end of the run, not after every step",
    "deterministic simulation: PRNG scheduler + store fault injection, snapshot byte-dump monitor and commit-order reference model"),
  "C04": ("exploration", "9.4",
-   "2-4 client tasks preempted at every lock, blocking select and store call over a tiny key space: tagged blind writes, $inc counters, find-one-and-update, read-modify-write inside session transactions, two-document transfers, multi-updates, reads, failing writes; oracle 1: the commit history recorded at the store seam is the serial order - the model applies the committing calls in that order and must reproduce every returned result and every committed catalog, non-committing calls must equal the model on a state of their invoke/return window; oracle 2: porcupine on the invoke/return history of short runs (Illegal = violation, Unknown = inconclusive, never reported); oracle 3: conservation of transfer sums and counter = successful increments; 18 % of the runs use statement-level scheduling points (every statement of the engine / session / stream / transaction / semaphore code is a preemption point); 8 % of the runs let 2-3 goroutines increment counters inside one shared session transaction (k-th increment returns k, committed counter = successful increments); two tasks inside Store at once are reported as two writers",
+   "2-4 client tasks preempted at every lock, blocking select and store call over a tiny key space: tagged blind writes, $inc counters, find-one-and-update, read-modify-write inside session transactions, two-document transfers, multi-updates, reads, failing writes; oracle 1: the commit history recorded at the store seam is the serial order - the model applies the committing calls in that order and must reproduce every returned result and every committed catalog, non-committing calls must equal the model on a state of their invoke/return window; oracle 2: porcupine on the invoke/return history of short runs (Illegal = violation, Unknown = inconclusive, never reported); oracle 3: conservation of transfer sums and counter = successful increments; 18 % of the runs use statement-level scheduling points (every statement of the engine / session / stream / transaction / semaphore code is a preemption point); 8 % of the runs let 2-3 goroutines increment counters inside one shared session transaction (k-th increment returns k, committed counter = successful increments); two tasks inside Store at once are reported as two writers; in half of the shared-transaction runs another goroutine commits the transaction while the members are still writing (every acknowledged write counts exactly once), members also run expiry passes on the shared transaction and write documents of their own; sorted find-one-and-update 'queue pops'; file-backed runs with a slow disk",
    SAMPLING + "porcupine is applied to histories of at most 24 operations",
    "deterministic simulation: PRNG scheduler (random / PCT / sticky / non-preemptive) down to statement granularity, store latency and error injection, commit-order replay + porcupine linearizability check"),
  "C05": ("fault_enumeration", "9.5",
@@ -50,7 +50,7 @@ CHECKS = {
    SAMPLING + "age clauses are evaluated with the log's own monotonic notion of time when the wall clock was stepped backwards; documented option defaults (100/1000, 5m/1h) are assumed when a plan leaves them unset",
    "deterministic simulation: simulated clock + per-commit replay oracle over the recorded commit history"),
  "C09": ("exploration", "9.9",
-   "1-2 writer tasks (tagged writes over 2 databases x 2 collections, drops, database drops) and 1-3 consumer tasks (client / database / collection scope; start now, resume-after, start-after, start-at-time; Next with simulated deadlines, TryNext, Close, re-Watch) under the seeded scheduler with small retention settings; oracle: the event log reconstructed from the commit history - each stream must deliver a contiguous run of its scope-filtered log, each event once, in order, from an admissible start position, end with the drop event + invalidate where the statement says so, report a lost position when retention overtook it, and a Next that waited out its deadline although a matching event was committed strictly earlier is a lost wake-up; at the end every open stream must have delivered everything it was owed; events are identified by their full bytes, two delivered events may not share a resume token, a lost-position error is only accepted if retention really removed an event at or after the stream's start position; 6 % of the runs are the scenario 'stream opened on an empty log, the first trimming commit fails in the store'; 18 % of the runs use statement-level scheduling points",
+   "1-2 writer tasks (tagged writes over 2 databases x 2 collections, drops, database drops) and 1-3 consumer tasks (client / database / collection scope; start now, resume-after, start-after, start-at-time; Next with simulated deadlines, TryNext, Close, re-Watch) under the seeded scheduler with small retention settings; oracle: the event log reconstructed from the commit history - each stream must deliver a contiguous run of its scope-filtered log, each event once, in order, from an admissible start position, end with the drop event + invalidate where the statement says so, report a lost position when retention overtook it, and a Next that waited out its deadline although a matching event was committed strictly earlier is a lost wake-up; at the end every open stream must have delivered everything it was owed; events are identified by their full bytes, two delivered events may not share a resume token, a lost-position error is only accepted if retention really removed an event at or after the stream's start position; 6 % of the runs are the scenario 'stream opened on an empty log, the first trimming commit fails in the store' (half of them come back later from the time or token of an event seen early); start positions include StartAtOperationTime at the cluster time of a delivered event (inclusive; refused with a lost position once retention discarded it); the lost-position rule uses what a stream is known to have examined (deliveries and polls that found nothing); wall-clock steps backwards; a run that ends in a lock cycle between writers and consumers is a stalled delivery; 18 % of the runs use statement-level scheduling points",
    SAMPLING + "the scheduling point between releasing the stream lock and waiting on the signal is an instrumented yield",
    "deterministic simulation: PRNG scheduler + simulated clock, delivery oracle over the recorded commit history, bounded-liveness probe"),
  "C15": ("exploration", "9.15",
@@ -58,12 +58,12 @@ CHECKS = {
    SAMPLING + "the rebuilt-from-scratch comparison uses lungo's own index builder on the same documents",
    "deterministic simulation: per-commit invariant monitor + reference model for index management"),
  "C16": ("exploration", "9.16",
-   "seeded search over interleavings (locks, blocking selects, store calls; in 18 % of the runs every statement of the engine / session / stream / semaphore code) and single faults of 2-4 actors mixing engine-, session- and driver-level calls, shared sessions, streams and shutdown; monitors: at most one writer (held write transactions and tasks inside Store), no panic, no lock cycle / stall, writer slot free again (probe write < 1 simulated second after faults stop), closed error after shutdown, no background goroutine left",
+   "seeded search over interleavings (locks, blocking selects, store calls; in 18 % of the runs every statement of the engine / session / stream / semaphore code) and single faults of 2-4 actors mixing engine-, session- and driver-level calls, shared sessions, streams and shutdown; sessions kept across operations, streams several actors wait on, a 'waiters at shutdown' scenario (6 % of the runs); monitors: at most one writer (held write transactions and tasks inside Store), no panic, no lock cycle / stall, writer slot free again (probe write < 1 simulated second after faults stop), closed error after shutdown, no background goroutine left, no commit inside Store when Close returns, simple calls and consumers in flight at shutdown come back within a simulated second, Close itself takes no simulated time unless the plan makes a commit slow",
    "sampling, not enumeration; interleavings at lock/select/store granularity, at statement granularity in a fraction of the runs; token timeouts are not judged while a shared session may legitimately hold the slot or while the scheduler lets time pass freely (the end-of-run probe still decides leaks)",
    "deterministic simulation: PRNG scheduler over instrumented locks/selects + fault injection + bounded liveness probe"),
  "C18": ("exploration", "9.18",
-   "1-3 uploader tasks, each walking one file through a seeded life cycle on a bucket object shared with the others (untracked or tracked: open, fragmented writes incl. empty writes, suspend / resume, close, claim, abort, delete + cleanup, UploadFromStream from a simulated reader with short reads / EOF-with-data / injected error, DownloadToStream into a simulated writer that may fail), reader tasks running read/skip/seek scripts on a file uploaded beforehand, a janitor task running Cleanup, all interleaved by the seeded scheduler with one injected store failure or latency in some runs; sizes: empty, around multiples of the chunk size, and (1 run in 120 quick, 1 in 25 thorough) around the 16 MiB upload buffer with 1-5 MiB chunks; oracle: content function + bytes.Reader compared call by call (bytes, positions, EOF and error behaviour), file record length / chunk size exact, chunks numbered 0..n-1 with all but the last full and equal to the content, nothing left after Abort, Delete (+Cleanup) or a reader failure; after an injected store failure the upload may fail but an Abort must then leave nothing",
-   "sampling, not enumeration; a ClaimUpload or UploadFromStream interrupted by an injected store failure is not judged further (the statement does not cover it); Cleanup runs with an age no upload of the run reaches, so it only collects files marked deleted",
+   "1-3 uploader tasks, each walking one file through a seeded life cycle on a bucket object shared with the others (untracked or tracked: open, fragmented writes incl. empty writes, suspend / resume, close, claim, abort, delete + cleanup, UploadFromStream from a simulated reader with short reads / EOF-with-data / injected error, DownloadToStream into a simulated writer that may fail), reader tasks running read/skip/seek scripts on a file uploaded beforehand, a janitor task running Cleanup, all interleaved by the seeded scheduler with one injected store failure or latency in some runs; sizes: empty, around multiples of the chunk size, and (1 run in 120 quick, 1 in 25 thorough) around the 16 MiB upload buffer with 1-5 MiB chunks; oracle: content function + bytes.Reader compared call by call (bytes, positions, EOF and error behaviour), file record length / chunk size exact, chunks numbered 0..n-1 with all but the last full and equal to the content, nothing left after Abort, Delete (+Cleanup) or a reader failure; after an injected store failure the upload may fail but an Abort must then leave nothing (a Close retried after a failure that persisted nothing either completes the file exactly or fails and aborts cleanly); a second upload under the id of a stored file is refused and leaves it byte-identical; 10 % of the runs are the aging variant (tracked uploads pausing for simulated seconds next to a janitor calling Cleanup with an age of that order: a marker that became 'uploaded' at T may be taken by Cleanup only in a commit at T + age or later; claims inside a transaction), 8 % share one stream object between two tasks (writer + closer: every acknowledged write is in the file; reader + seeker: some merge of the two call sequences on an in-memory reader explains all results) or complete two uploads under one file name with overlapping lifetimes (revisions follow completion order)",
+   "sampling, not enumeration; a ClaimUpload or UploadFromStream interrupted by an injected store failure is not judged further (the statement does not cover it); outside the aging variant Cleanup runs with an age no upload of the run reaches; in the aging variant uploads collected while still uploading are not judged (documented behaviour); a Drop racing uploads is not judged",
    "deterministic simulation: PRNG scheduler over the shared bucket, simulated reader / writer / store faults, in-memory reference reader and stored-document invariants"),
  "C19": ("exploration", "9.19",
    "histories of writes and TTL index management (several TTL indexes per collection, zero and large expiry, date / non-date / array values, partial filters) while simulated time advances and the engine's real expiry loop runs on the simulated ticker; every commit made by the loop (or by a direct Transaction.Expire) is judged against the model: it removes every document a TTL index makes expired at that moment, nothing else, logs a delete event for each and leaves other data and index definitions alone; at the end, after two more intervals, nothing that was clearly expired may be left; a failing pass must not stop the loop; file-backed runs close and reopen the engine, after which the TTL definitions must still be the model's; expiry on a compound key must be refused",
